@@ -31,7 +31,7 @@ func runC11(c *Ctx) {
 	persisted := []string{"root", "appendPath", "size"}
 
 	var methods []*ssa.Function
-	for _, fn := range p.OwnFuncs {
+	for _, fn := range p.Subjects() {
 		if strings.HasPrefix(FuncKey(fn), "pkg/trie/rmt.(*RegularMerkleTree).") && len(fn.Blocks) > 0 {
 			methods = append(methods, fn)
 		}
@@ -64,7 +64,7 @@ func runC11(c *Ctx) {
 	// ---- R2
 	{
 		saved := map[string]string{}
-		for _, b := range save.Blocks {
+		for _, b := range blocksDeep(save) {
 			for _, in := range b.Instrs {
 				if st, ok := in.(*ssa.Store); ok {
 					if fa, ok := st.Addr.(*ssa.FieldAddr); ok {
